@@ -99,7 +99,19 @@ def try_replay(prop, ob, sections, sd, tier):
                 for fl in b.get("failures", []):
                     found = found or fl
             _replay_memo[key] = found
-        return _replay_memo[key]
+        if _replay_memo[key] is not None:
+            return _replay_memo[key]
+    # no input from the hinted families: a failing input of another family met in this same run is attached (marked as such)
+    for sec in sections:
+        if sec.get("engine") != "witness":
+            continue
+        for b in sec.get("bounded", []):
+            if str(b.get("name", "")).startswith("axiom_sampling"):
+                continue
+            for fl in b.get("failures", []):
+                fl2 = dict(fl)
+                fl2["note"] = "failing input of another witness family in the same run (not derived from this obligation's counter-model)"
+                return fl2
     return None
 
 
